@@ -479,6 +479,26 @@ with plain_slist (l : slist) : bool :=
 with plain_clist (l : clist) : bool :=
   match l with CNil => true | CCons c b t => mapok c && plain_slist b && plain_clist t end.
 
+(* [wplain]: plain without the restriction on element stores — only the two
+   shapes the parser never produces are excluded.  Every program the compiler
+   accepts and that is wplain lies in the fragment of compile_wf (C17). *)
+Fixpoint wplain_stmt (s : stmt) : bool :=
+  match s with
+  | SDecl _ e => mapok e
+  | SAssign target e => mapok target && mapok e
+  | SIf c b elifs els =>
+      mapok c && wplain_slist b && wplain_clist elifs && match els with NoElse => true | Else eb => wplain_slist eb end
+  | SWhile c b => mapok c && wplain_slist b
+  | SForStep _ start stop step b => mapok_o start && mapok stop && mapok_o step && wplain_slist b
+  | SForIter _ _ e b => mapok e && wplain_slist b
+  | SBlock _ => false
+  | _ => true
+  end
+with wplain_slist (l : slist) : bool :=
+  match l with SNil => true | SCons s t => wplain_stmt s && wplain_slist t end
+with wplain_clist (l : clist) : bool :=
+  match l with CNil => true | CCons c b t => mapok c && wplain_slist b && wplain_clist t end.
+
 (* a whole program: the fragment, and no break outside a loop *)
 Definition lpfrag (p : slist) : bool := lfrag_slist p && nb_slist p.
 
